@@ -345,6 +345,15 @@ func (m *Model) evalCall(e *Expr, asValue bool) (Val, *mErr) {
 		}
 		logCall()
 		return Val{}, &mErr{what: "host function reported an error"}
+	case "string":
+		if len(args) != 1 {
+			return Val{}, &mErr{what: "wrong number of arguments for string"}
+		}
+		d, ok := args[0].display()
+		if !ok {
+			return Val{}, &mErr{any: true, what: "display form of a number outside the claimed fragment"}
+		}
+		return strV(d), nil
 	case "visited":
 		if err := want("s"); err != nil {
 			return Val{}, err
